@@ -321,6 +321,13 @@ def special_stream():
         "pd.Series(['2020', '2021'])", "pd.Series(['01', '02'])", "pd.Series(['1_0'])", "pd.Series(['nan', '1.5'])", "pd.Series(['inf'])",
         "pd.Series(['True', 'yes'])", "pd.Series(['nan', 'NaN'])", "pd.Series(['nan'])", "pd.Series(['NaN', None])", "pd.Series(['-nan', 'nan', 'nan'])",
         "pd.Series(['NaT', 'NaT'])", "pd.Series(['inf', '-inf'])", "pd.Series(['nan', 'nan'], dtype=object)", "pd.Series(['nan', '1'])", "pd.Series(['NaT', '2020-01-01'])", "pd.Series([''])", "pd.Series(['', 'a'])", "pd.Series([' '])", "pd.Series(['\\x00'])",
+        "pd.Series([pathlib.Path('/' + 'a' * 5000)])", "pd.Series([pathlib.Path('/tmp'), pathlib.Path('/' + 'b' * 300)])",
+        "pd.Series([pd.Timestamp('2018-11-04 12:00', tz='America/Sao_Paulo')])", "pd.Series([pd.Timestamp('2018-11-05', tz='America/Sao_Paulo'), pd.NaT])",
+        "pd.Series(['2021-03-01', '', None, '2021-03-02'])", "pd.Series(['1', 'nan', None, '2'])", "pd.Series(['1.0', 'NaN', nan, '2.0'])", "pd.Series([None, 'NaT', '2021-03-01'])",
+        "pd.Series(['1', 'nan', None, '2'], dtype='string')", "pd.Series(['2021-03-01', 'NaT', pd.NA, '2021-03-02'], dtype='string')",
+        "pd.Series([pd.Timestamp('2020-01-01 00:00:00.250'), pd.Timestamp('2020-01-02')])", "pd.Series([pd.Timestamp('2020-01-01 00:00:00.000001')])",
+        "pd.Series([pd.Timestamp('2020-01-01 00:00:00.5', tz='UTC'), pd.NaT])", "pd.Series([pd.NaT, pd.Timestamp('1999-12-31 00:00:00.000000001')])",
+        "pd.Series([pd.Timestamp('2020-01-01 00:00:01'), pd.Timestamp('2020-01-02')])", "pd.Series([pd.Timestamp('2020-01-01 00:01:00'), pd.Timestamp('2020-01-02')])",
         "pd.Series([3e9, 4e9, 7.0], dtype='float32')", "pd.Series([40000.0, -3.0], dtype='float16')", "pd.Series([1e10], dtype='Float32')", "pd.Series([3e9, None], dtype='Float32')",
         "pd.Series([3e9, nan], dtype='float32')", "pd.Series([2.0**31, 1.0], dtype='float32')", "pd.Series([-2.0**31 - 256, 1.0], dtype='float32')",
         "pd.Series([1.0, 2.0**63, 3.0])", "pd.Series([2.0**63])", "pd.Series([-2.0**63, 1.0])", "pd.Series([2.0**53 + 2, 1.0])", "pd.Series([2.0**64, 0.0])",
